@@ -1,6 +1,117 @@
-//! bourse_de::verif — harness registry of the step_sim crate for native replay.
+//! bourse_de::verif — support shared by the harnesses of the step_sim crate, and the harness
+//! registry of this crate for native replay.
 #![allow(dead_code)]
+use bourse_book::verif::src::*;
+use rand::RngCore;
+
+/// Number of pre-drawn words a `SymRng` can hold.
+pub const RNG_WORDS: usize = 12;
+
+/// Symbolic random generator (DESIGN.md §2.3): every word is an arbitrary value.
+///
+/// * `pre[..npre]` are words drawn by the harness *before* the code under test runs, so that the
+///   harness can constrain them (e.g. "accepted at first draw by `sample_single_inclusive`");
+///   they are handed out first, in order.
+/// * once they are used up, every further call draws a fresh arbitrary word.
+/// * `calls` counts every `next_u32`/`next_u64` call (C15 L5, C20: who drew what).
+#[derive(Clone, Copy)]
+pub struct SymRng {
+    pub pre: [u64; RNG_WORDS],
+    pub npre: usize,
+    pub calls: usize,
+    /// when set, running out of pre-drawn words is a harness error (the code drew more than stated)
+    pub strict: bool,
+    pub overdrawn: bool,
+    /// log of the words handed out (first RNG_WORDS)
+    pub log: [u64; RNG_WORDS],
+}
+
+impl SymRng {
+    pub fn new() -> Self {
+        SymRng { pre: [0; RNG_WORDS], npre: 0, calls: 0, strict: false, overdrawn: false, log: [0; RNG_WORDS] }
+    }
+    /// pre-draw one arbitrary 32-bit word
+    pub fn push_u32(&mut self) -> u32 {
+        let w = any_u32();
+        self.pre[self.npre] = w as u64;
+        self.npre += 1;
+        w
+    }
+    /// pre-draw one arbitrary 64-bit word
+    pub fn push_u64(&mut self) -> u64 {
+        let w = any_u64();
+        self.pre[self.npre] = w;
+        self.npre += 1;
+        w
+    }
+    fn next_word(&mut self, wide: bool) -> u64 {
+        let w = if self.calls < self.npre {
+            self.pre[self.calls]
+        } else {
+            if self.strict {
+                self.overdrawn = true;
+            }
+            if wide {
+                any_u64()
+            } else {
+                any_u32() as u64
+            }
+        };
+        if self.calls < RNG_WORDS {
+            self.log[self.calls] = w;
+        }
+        self.calls += 1;
+        w
+    }
+}
+
+impl RngCore for SymRng {
+    fn next_u32(&mut self) -> u32 {
+        self.next_word(false) as u32
+    }
+    fn next_u64(&mut self) -> u64 {
+        self.next_word(true)
+    }
+    fn fill_bytes(&mut self, dest: &mut [u8]) {
+        let mut i = 0;
+        while i < dest.len() {
+            dest[i] = self.next_u32() as u8;
+            i += 1;
+        }
+    }
+    fn try_fill_bytes(&mut self, dest: &mut [u8]) -> Result<(), rand::Error> {
+        self.fill_bytes(dest);
+        Ok(())
+    }
+}
+
+/// `UniformInt<u32>::sample_single_inclusive` accepts the word `v` for a range of `r` values at
+/// its first draw (rand 0.8.5: `lo = v*r mod 2^32 <= (r << clz r) - 1`)
+pub fn accepted_u32(v: u32, r: u32) -> bool {
+    let lo = v.wrapping_mul(r);
+    let zone = (r << r.leading_zeros()).wrapping_sub(1);
+    lo <= zone
+}
+/// the index that draw yields: the high half of the 64-bit product
+pub fn index_u32(v: u32, r: u32) -> u32 {
+    (((v as u64) * (r as u64)) >> 32) as u32
+}
+
+/// pre-draw the n-1 words a Fisher-Yates shuffle of n items consumes, each assumed accepted at
+/// first draw (a rejected word only re-enters the same loop with a fresh word)
+pub fn shuffle_words(rng: &mut SymRng, n: usize) {
+    let mut i = n;
+    while i > 1 {
+        let w = rng.push_u32();
+        assume(accepted_u32(w, i as u32));
+        i -= 1;
+    }
+}
+
 #[cfg(not(kani))]
-pub fn lookup(_name: &str) -> Option<fn()> {
-    None
+pub fn lookup(name: &str) -> Option<fn()> {
+    crate::env::verif_proofs::lookup(name)
+        .or_else(|| crate::market_env::verif_proofs::lookup(name))
+        .or_else(|| crate::agents::common::verif_proofs::lookup(name))
+        .or_else(|| crate::agents::verif::lookup(name))
 }
